@@ -1224,3 +1224,25 @@ package netty
 // no mutable package-level state (C12, and every property whose plan touches this package)
 //@ property C12
 //@ globals immutable
+
+// every type with exported methods declares its method set (a type or an exported method added
+// later - something other code can reach through an interface - is reported until it is under contract)
+//@ property C12 C14
+//@ types covered
+//@ methods ActiveHandlerFunc: HandleActive
+//@ methods EventHandlerFunc: HandleEvent
+//@ methods ExceptionHandlerFunc: HandleException
+//@ methods InactiveHandlerFunc: HandleInactive
+//@ methods InboundHandlerFunc: HandleRead
+//@ methods OutboundHandlerFunc: HandleWrite
+//@ methods asyncExecutor: Exec
+//@ methods bootstrap: Connect Context Listen ServeChannel Shutdown
+//@ methods channel: Attachment Close Context CtxWrite1 CtxWritev ID IsActive LocalAddr Pipeline ReadFrom RemoteAddr SetAttachment Transport Trigger Write Write1 Writer Writev
+//@ methods channelHolder: CloseAll HandleActive HandleInactive
+//@ methods handlerContext: Attachment Channel Close HandleActive HandleEvent HandleException HandleInactive HandleRead HandleWrite Handler SetAttachment Trigger Write
+//@ methods headHandler: HandleWrite
+//@ methods listener: Acceptor Async Close Sync
+//@ methods pipeline: AddFirst AddHandler AddLast Channel ContextAt FireChannelActive FireChannelEvent FireChannelException FireChannelInactive FireChannelRead FireChannelWrite IndexOf LastIndexOf ServeChannel Size
+//@ methods readIdleHandler: HandleActive HandleInactive HandleRead
+//@ methods tailHandler: HandleException
+//@ methods writeIdleHandler: HandleActive HandleInactive HandleWrite
